@@ -97,10 +97,10 @@ def unchanged(maps, status=True):
 
 
 def arm_change_contracts(cls, maps, neutral, extra_modifies=(), others=True, props='C01 C08', rem_req=(),
-                         rem_inv='INV', other_maps=None, pre_inv='INV~arms', add_ens=(), rem_ens=()):
+                         rem_inv='INV', other_maps=None, pre_inv='INV~arms', add_ens=(), rem_ens=(), add_inv='INV'):
     """Contracts of BaseMAB.add_arm / remove_arm for receiver class `cls` whose per-arm dictionaries are `maps`."""
     mods = ['self.%s{}' % m for m in maps] + ['self.arm_to_status{}'] + list(extra_modifies)
-    ens_add = ['INV', '[C01,C03,neutral] ' + neutral + ' and ' + status_fresh('arm')]
+    ens_add = [add_inv, '[C01,C03,neutral] ' + neutral + ' and ' + status_fresh('arm')]
     ens_rem = [rem_inv]
     if others:
         om = other_maps if other_maps is not None else maps
